@@ -1,7 +1,7 @@
 //! C15 — name resolution: exact or unique-suffix match, never an arbitrary candidate.
 use crate::util::*;
 use qrlew::builder::{Ready, With};
-use qrlew::data_type::DataType;
+use qrlew::data_type::{DataType, DataTyped};
 use qrlew::hierarchy::Hierarchy;
 use qrlew::relation::{Relation, Variant as _};
 use serde_json::json;
@@ -262,8 +262,11 @@ fn sql_case(i: u64, p: &Params, rep: &mut Report) {
         3 => (format!("{} JOIN {} USING (id)", alias("t1", a1), alias("t2", a2)), col == "id"),
         _ => (format!("{} NATURAL JOIN {}", alias("t1", a1), alias("t2", a2)), in1 && in2),
     };
-    let place = r.below(5);
+    let place = r.below(7);
     let query = match place {
+        // the shared name used outside a derived table / CTE that selects * from the join
+        5 => format!("SELECT {} FROM (SELECT * FROM {}) AS s", col, from),
+        6 => format!("WITH s AS (SELECT * FROM {}) SELECT {} FROM s", from, col),
         0 => format!("SELECT {} FROM {}", col, from),
         1 => {
             // predicates of several shapes: the range filter only inspects some of them
@@ -305,7 +308,7 @@ fn sql_case(i: u64, p: &Params, rep: &mut Report) {
     match (expectation, &res) {
         ("ambiguous", Ok(Ok(rel))) => {
             rep.violation(
-                format!("C15|sql|ambiguous-column-accepted|{}|{}", kinds[kind as usize], ["select", "where", "group-by", "order-by", "aggregate"][place as usize]),
+                format!("C15|sql|ambiguous-column-accepted|{}|{}", kinds[kind as usize], ["select", "where", "group-by", "order-by", "aggregate", "star-in-derived-table", "star-in-cte"][place as usize]),
                 format!("`{}` names a column present in both joined tables, yet the query is accepted: {}", col, rel.schema()),
                 case,
             );
@@ -313,7 +316,7 @@ fn sql_case(i: u64, p: &Params, rep: &mut Report) {
         ("unknown column", Ok(Ok(_))) => {
             rep.violation(
                 if place >= 3 {
-                    format!("C15|sql|unknown-column-accepted|{}|{}", kinds[kind as usize], ["select", "where", "group-by", "order-by", "aggregate"][place as usize])
+                    format!("C15|sql|unknown-column-accepted|{}|{}", kinds[kind as usize], ["select", "where", "group-by", "order-by", "aggregate", "star-in-derived-table", "star-in-cte"][place as usize])
                 } else {
                     format!("C15|sql|unknown-column-accepted|{}", kinds[kind as usize])
                 },
@@ -340,6 +343,47 @@ fn sql_case(i: u64, p: &Params, rep: &mut Report) {
         "outcome": match &res { Ok(Ok(_)) => "accepted".to_string(), Ok(Err(e)) => format!("error: {}", e.lines().next().unwrap_or("")), Err(p) => format!("panic: {}", p.message) }}));
 }
 
+/// A CTE named like a base table is the one in scope
+fn cte_shadow_case(i: u64, p: &Params, rep: &mut Report) {
+    use qrlew::data_type::Variant as _;
+    let mut r = p.rng(i ^ 0x5AD0_0000_0000);
+    let schema = |cols: &[(&str, DataType)]| -> qrlew::relation::Schema { cols.iter().map(|(c, t)| qrlew::relation::Field::new(c.to_string(), t.clone(), None)).collect() };
+    let t1: Relation = Relation::table().name("t1").path(["t1"]).schema(schema(&[("id", DataType::integer_interval(0, 100)), ("a", DataType::integer_interval(0, 10))])).size(10).build();
+    let t2: Relation = Relation::table().name("t2").path(["t2"]).schema(schema(&[("id", DataType::integer_interval(0, 100)), ("c", DataType::float_interval(20.0, 30.0))])).size(10).build();
+    let qualified = r.bool();
+    let relations: Hierarchy<Arc<Relation>> = if qualified {
+        Hierarchy::from([(vec!["sch", "t1"], Arc::new(t1)), (vec!["sch", "t2"], Arc::new(t2))])
+    } else {
+        Hierarchy::from([(vec!["t1"], Arc::new(t1)), (vec!["t2"], Arc::new(t2))])
+    };
+    let query = match r.below(3) {
+        0 => "WITH t1 AS (SELECT c AS a FROM t2) SELECT a FROM t1".to_string(),
+        1 => "WITH t1 AS (SELECT c AS a, id FROM t2 WHERE c > 21) SELECT a, id FROM t1 WHERE a > 22".to_string(),
+        _ => "WITH t2 AS (SELECT a AS c FROM t1) SELECT x.c FROM t2 AS x".to_string(),
+    };
+    let res = guarded(|| {
+        let q = qrlew::sql::parse(&query).map_err(|e| e.to_string())?;
+        Relation::try_from(q.with(&relations)).map_err(|e| e.to_string())
+    });
+    rep.eval();
+    rep.count("sql:cte-shadows-table");
+    rep.nontrivial(hash64(&(query.clone(), qualified)));
+    if let Ok(Ok(rel)) = &res {
+        let f = &rel.schema()[0];
+        // the CTE's column: float[20 30] in the first two queries, int[0 10] in the third
+        let expected = if query.starts_with("WITH t1") { DataType::float_interval(20.0, 30.0) } else { DataType::integer_interval(0, 10) };
+        if !f.data_type().is_subset_of(&expected) {
+            rep.violation(
+                format!("C15|sql|cte-shadowing|the base table is read instead of the CTE of the same name|{}", if qualified { "qualified paths" } else { "one-component paths" }),
+                format!("{}: column {} has type {} (the CTE's column has type {})", query, f.name(), f.data_type(), expected),
+                json!({"query": query, "tables": {"t1": ["id int[0 100]", "a int[0 10]"], "t2": ["id int[0 100]", "c float[20 30]"]}, "registered_under": if qualified { "sch.t1, sch.t2" } else { "t1, t2" }}),
+            );
+        }
+    } else {
+        rep.count("sql:cte-shadows-table:refused-or-panic");
+    }
+}
+
 pub fn run(p: &Params) -> Report {
     let mut rep = Report::for_params("C15", p);
     let pp = p.clone();
@@ -363,7 +407,9 @@ pub fn run(p: &Params) -> Report {
         p.cases,
         &mut rep,
         &|i, rep| {
-            if i % 3 == 2 {
+            if i % 30 == 29 {
+                cte_shadow_case(i, &pp, rep)
+            } else if i % 3 == 2 {
                 sql_case(i, &pp, rep)
             } else {
                 random_case(i, &pp, rep)
